@@ -16,7 +16,10 @@ declaration is resolved through the real descriptors.  Families of runs:
   every bundled class x every record (matching pairs are judged in full, a class whose compatibility
   excludes the device must refuse it), Generic with every TLC-enumerated assignment, a probe class of
   TLC-generated declarations per record, Generic on derived no-mailbox variants of the records that carry
-  PDO categories (the only way to exercise the SII source on PDO lists with not-assigned PDOs).
+  PDO categories (the only way to exercise the SII source on PDO lists with not-assigned PDOs), and for
+  every matching pair a REAL slow SyncGroup cycle on the segment with every declared variable linked to a
+  device: what it reads from a random input area and what its writes do to the device's output area (R10,
+  judged with ProcVar.tla).
 Python drives and records; every verdict is printed by TLC."""
 import json
 import os
@@ -165,7 +168,7 @@ def classify(ctx, fam, cm, run, v, tally, remarks):
                  f"{d['res']}: {code}", **dd)
         elif code == "ok" and not run["probe"] and fit not in FIT_ACCEPTED:
             fail("fit-" + fit, f"{d['name']} covers more / else than its entry: {fit} ({d['res']})", fit=fit, **dd)
-        if code == "ok" and not run["probe"]:
+        if code == "ok" and fam == "class":
             remarks["fits"][fit] = remarks["fits"].get(fit, 0) + 1
             if fit in ("view", "partial", "narrow"):
                 remarks["views"].add(f"{cls}.{d['name']}:{fit}")
@@ -175,6 +178,23 @@ def classify(ctx, fam, cm, run, v, tally, remarks):
         a, b = run["decls"][i - 1], run["decls"][j - 1]
         fail("overlap", f"{a['name']} ({a['res']}) and {b['name']} ({b['res']}) share bits, neither contains the other",
              a=a["name"], b=b["name"], ares=a["res"], bres=b["res"])
+    if fam == "cycle":
+        cy = run["cycle"]
+        if not v["cycle"]["done"]:
+            fail("cycle-incomplete", f"the sync-group cycle did not complete: {cy['exc']}", exc=cy["exc"])
+        for rd, code in zip(cy["reads"], v["cycle"]["reads"]):
+            d = run["decls"][rd["k"] - 1]
+            remarks["cycle"][code] = remarks["cycle"].get(code, 0) + 1
+            if code not in ("ok", "out", "unjudged"):
+                fail("read-" + code, f"{d['name']} ({d['res']}) read {rd['val']} from the input area {cy['inimg']}",
+                     decl=d["name"], res=d["res"], val=rd["val"], inimg=cy["inimg"])
+        for wr, code in zip(cy["writes"], v["cycle"]["writes"]):
+            d = run["decls"][wr["k"] - 1]
+            remarks["cycle"]["w-" + code] = remarks["cycle"].get("w-" + code, 0) + 1
+            if code not in ("ok", "unjudged"):
+                fail("write-" + code, f"writing {wr['val']} to {d['name']} ({d['res']}) turned the output area "
+                     f"{wr['before']} into {wr['after']} ({wr['status']})", decl=d["name"], res=d["res"], val=wr["val"],
+                     before=wr["before"], after=wr["after"], status=wr["status"])
     for s, ok in zip(run["svcs"], v["svcs"]):
         if not ok:
             fail("service-absent", f"{s['name']} = ServiceDesc({s['idx'] + s['off']:#x}, {s['sub']:#x}) is not in the "
@@ -203,7 +223,7 @@ def run(ctx):
     infos = [TS.class_info(c) for c in classes]
     cases, meta = device_cases(records)
     tally, errors, side = {}, [], {}
-    remarks = dict(fits={}, views=set(), signed_as_unsigned=set(), observation_samples={})
+    remarks = dict(fits={}, views=set(), signed_as_unsigned=set(), observation_samples={}, cycle={})
 
     def guarded(fn):
         def w():
@@ -267,6 +287,21 @@ def run(ctx):
         for k, r in zip(variants, TS.run_segment([dict(record=meta[k]["rec"], cls=Generic) for k in variants])):
             fam[k, len(main[k]["runs"])] = "variant"
             main[k]["runs"].append(r)
+    # ---- R10: a real sync-group cycle through every declared variable of every matching pair
+    import random
+    import struct
+    ncyc = 0
+    for cls, inf in zip(classes, infos):
+        for k in native:
+            v, p = struct.unpack_from("<II", meta[k]["rec"]["eeprom"], 16)      # which pairs to drive; TLC decides `matching`
+            if not inf["decls"] or not ((v, p) in (cls.compatibility or ()) or inf["named"] == list(struct.pack("<I", p))):
+                continue
+            seeds = [f"X09/{cls.__name__}/{k}/{j}" for j in range(1 if ctx.quick else 4)]
+            rngs = [random.Random(sd) for sd in seeds] + ([ctx.rng] if ctx.quick else [ctx.rng, ctx.rng])
+            for rng in rngs:
+                fam[k, len(main[k]["runs"])] = "cycle"
+                main[k]["runs"].append(TS.run_cycle(dict(record=meta[k]["rec"], cls=cls), rng, rounds=2 if ctx.quick else 4))
+                ncyc += 1
     tm["classes_replay"] = round(time.time() - t0, 1)
     t0 = time.time()
     resA, verdictsA, devices, statics, shared = judge(ctx, main, infos, "evalA")
@@ -326,7 +361,8 @@ def run(ctx):
     ctx.extra["fit_classes"] = remarks["fits"]
     ctx.extra["views_and_partials"] = sorted(remarks["views"])
     ctx.extra["signed_entry_read_unsigned"] = sorted(remarks["signed_as_unsigned"])
-    ctx.extra["runs"] = dict(classes_x_records=sum(1 for f in fam.values() if f == "class"),
+    ctx.extra["cycle_verdicts"] = remarks["cycle"]
+    ctx.extra["runs"] = dict(cycles=ncyc, classes_x_records=sum(1 for f in fam.values() if f == "class"),
                              variants=len(variants), assignments=len(asg), MaxTotal=total,
                              probe_declarations=sum(len(v) for k, v in probes.items() if meta[k]["variant"] == "native"))
     ctx.extra["observations"] = {k: dict(count=v, what=OBSERVATIONS[k], sample=remarks["observation_samples"].get(k))
